@@ -55,8 +55,10 @@ Reset ==
     /\ panicked' = FALSE /\ late' = FALSE
     /\ auto' = E.auto /\ pid' = [p \in TracePubs |-> ""]
 
-\* the ID a delivered message must carry: the one Put assigned (automatic IDs), else the publisher's own
-IdOK(p) == IF auto /\ pid[p] # "" THEN E.idset /\ E.id = pid[p]
+\* the ID a delivered message carries is the one the replayer's Put gave it (automatic IDs) - the same whether it is
+\* received live or by replay (C04) - else the publisher's own
+SeenID == IF E.idset THEN E.id ELSE "<unset>"
+IdOK(p) == IF pid[p] # "" THEN SeenID = pid[p]
            ELSE IF auto THEN TRUE
            ELSE E.idset /\ E.id = p
 
@@ -79,7 +81,7 @@ TraceNext ==
     \/ Ev("loop.subfail") /\ LoopSubFail(E.s) /\ Keep
     \/ Ev("loop.register") /\ LoopRegister(E.s) /\ Keep
     \/ Ev("loop.msg") /\ LoopMsg(E.p) /\ Keep
-    \/ Ev("put") /\ Put(E.p, E.v) /\ auto' = auto /\ pid' = IF E.v = "ok" /\ auto THEN [pid EXCEPT ![E.p] = E.id] ELSE pid
+    \/ Ev("put") /\ Put(E.p, E.v) /\ auto' = auto /\ pid' = IF E.v = "ok" /\ auto THEN [pid EXCEPT ![E.p] = SeenID] ELSE pid
     \/ Ev("loop.reply.err") /\ ReplyErr(E.p) /\ Keep
     \/ Ev("loop.reply") /\ Reply(E.p) /\ Keep
     \/ Ev("loop.fail") /\ LoopFail(E.s) /\ Keep
